@@ -467,6 +467,9 @@ def run(ctx, t0):
     r3 = C16.rule_completed(facts)
     r3.rule = "C08.R3"
     rules = [r1, r2, r3, rule_size_writers(facts), rule_final(facts), rule_marker(facts), rule_lengths(facts)]
+    from rules import C01 as _c01
+    rules.append(_c01.automaton_part(facts, "C08.R9", "the end-marker test reads the distance just decoded (rep[0] is stored before it, and stays 0xFFFF_FFFF "
+                                     "after an accepted marker)", ("automaton|marker",)))
     if pat.body_of(facts, "decode::stream::Stream::finish") is not None:
         from rules import C15
         ra = C15.rule_allow_incomplete(facts)
